@@ -164,6 +164,26 @@ Definition json_esc1 (c : N) : str :=
   else u_esc (55296 + (c - 65536) / 1024) ++ u_esc (56320 + (c - 65536) mod 1024).
 Definition json_esc (t : str) : str := flat_map json_esc1 t.
 
+(* CodeWriter.write_block = str.splitlines() + one write_line per piece: every character str.splitlines()
+   breaks at (LF CR VT FF FS GS RS NEL LS PS; CR LF counts once) becomes LF + the current indentation.
+   Endpoint method code is passed through it once, inside the class (indentation = 4 spaces). *)
+Definition is_break (c : N) : bool :=
+  (c =? 10) || (c =? 13) || (c =? 11) || (c =? 12) || (c =? 28) || (c =? 29) || (c =? 30) || (c =? 133) || (c =? 8232) || (c =? 8233).
+Fixpoint reflow (ind s : str) : str :=
+  match s with
+  | [] => []
+  | c :: r =>
+      if c =? 13 then
+        match r with
+        | d :: r' => if d =? 10 then (match r' with [] => [] | _ => 10 :: ind ++ reflow ind r' end)
+                     else 10 :: ind ++ reflow ind r
+        | [] => []
+        end
+      else if is_break c then (match r with [] => [] | _ => 10 :: ind ++ reflow ind r end)
+      else c :: reflow ind r
+  end.
+Definition ind4 : str := [32; 32; 32; 32].
+
 (* ------------------------------------------------------------------ the rendering sites
    (ids are those of the inventory Gen/T_C15.v; file:line there) *)
 (* value-carrying `…` sites with NO escaping: f'`{x}`' *)
@@ -171,9 +191,10 @@ Definition site_enum_value (t : str) : str := dq t.     (* python_construct_rend
 Definition site_meta_key (t : str) : str := dq t.       (* render_dataclass Meta key maps (both directions) *)
 Definition site_disc_prop (t : str) : str := dq t.      (* render_alias property_name: str = `…` *)
 Definition site_disc_value (t : str) : str := dq t.     (* render_alias _mapping_data tuples / get_mapping keys *)
-Definition site_query_key (t : str) : str := dq t.      (* url_args_generator query dict keys *)
-Definition site_header_key (t : str) : str := dq t.     (* url_args_generator header dict keys *)
-Definition site_media_type (t : str) : str := dq t.     (* response_handler if content_type == `…`; overload Literal[`…`] *)
+(* the same, then CodeWriter.write_block in endpoint_visitor *)
+Definition site_query_key (t : str) : str := reflow ind4 (dq t).    (* url_args_generator query dict keys *)
+Definition site_header_key (t : str) : str := reflow ind4 (dq t).   (* url_args_generator header dict keys *)
+Definition site_media_type (t : str) : str := reflow ind4 (dq t).   (* overload_generator Literal[…] = … ; response handler *)
 (* the one escaped site: dataclass_generator._get_field_default *)
 Definition site_default (t : str) : str := dq (json_esc t).
 
@@ -242,8 +263,10 @@ Definition no_chars (bad : N -> bool) (t : str) : bool := forallb (fun c => negb
 (* raw `…` site: quote, backslash, line breaks, NUL/surrogates are the harmful characters *)
 Definition safe_dq_raw (t : str) : bool :=
   no_chars (fun c => (c =? 34) || (c =? 92) || line_break c || bad_raw c) t.
+(* raw value site whose code then goes through write_block: additionally every splitlines() break character *)
+Definition safe_dq_block (t : str) : bool := safe_dq_raw t && no_chars is_break t.
 (* json.dumps site: only code points above the BMP are mis-rendered (surrogate pair) *)
-Definition safe_default (t : str) : bool := no_chars (fun c => (65536 <=? c) || is_surrogate c) t.
+Definition safe_default (t : str) : bool := no_chars (fun c => 65536 <=? c) t.
 (* raw docstring text: quote, backslash, NUL/surrogates *)
 Definition safe_doc_raw (t : str) : bool := no_chars (fun c => (c =? 34) || (c =? 92) || bad_raw c) t.
 (* alias docstring (escapes \ and QQQ): harmful = a quote as LAST character, NUL/surrogates *)
